@@ -98,9 +98,17 @@ def to_native(shape, j, opaque=None):
         if shape.container == "tuple":
             return tuple(vals)
         return vals
-    if k == "setseq":
+    if k in ("setseq", "keyset"):
         items = j["list"] if isinstance(j, dict) else j
         return {to_native(shape.elem, x, opaque) for x in items}
+    if k == "dictopt":
+        items = j["dict"] if isinstance(j, dict) and "dict" in j else []
+        out = {}
+        for kj, vj in items:
+            for key, vshape in shape.entries.items():
+                if _key_matches(key, kj):
+                    out[key] = to_native(vshape, vj, opaque)
+        return out
     if k == "enum":
         cls = load_class(shape.cls)
         return cls[j["member"] if isinstance(j, dict) else j]
@@ -165,7 +173,10 @@ def gen_json(shape, rng: random.Random, seeds=None, size=3):
         return {"tuple": [gen_json(s, rng, seeds, size) for s in shape.items]}
     if k == "fixedlist":
         return {"list": [gen_json(s, rng, seeds, size) for s in shape.items]}
-    if k in ("seq", "setseq"):
+    if k == "dictopt":
+        return {"dict": [[_key_json(key), gen_json(vs, rng, seeds, size)] for key, vs in shape.entries.items()
+                         if key in shape.always or rng.random() < 0.6]}
+    if k in ("seq", "setseq", "keyset"):
         n = rng.randint(0, size)
         return {"list": [gen_json(shape.elem, rng, seeds, size) for _ in range(n)]}
     if k == "enum":
@@ -190,3 +201,13 @@ def collect_numbers(j, out):
     elif isinstance(j, (int, float)) and not isinstance(j, bool):
         if abs(j) < 1e6:
             out.append(float(j))
+
+
+def _key_json(key):
+    if isinstance(key, frozenset):
+        return {"frozenset": sorted(key)}
+    return key
+
+
+def _key_matches(key, kj):
+    return _key_json(key) == kj
